@@ -14,17 +14,17 @@ CHECKS = {
    category="model_checking", design_ref="DESIGN.md §5 C02",
    technique="bounded-exhaustive enumeration of values × every permutation of map insertion order × node implementations, each encoded by the real encoder and compared byte-for-byte with an independent canonical encoder, then decoded by the real and by a reference decoder",
    text="Every value of the bounded universe (all trees ≤4/5 nodes, every boundary scalar at every position, all permutations of key sets ≤4 incl. nested) is encoded by dagcbor in every implementation; bytes must equal the reference canonical encoding, EncodedLength must equal the byte count, and both decoders must return the value in canonical order.",
-   note="Trusted: reference encoder/decoder in mc/ref/refcbor.go. Values larger than the bound are represented only by head-boundary containers (23…65536 entries)."),
+   note="Trusted: reference encoder/decoder in mc/ref/refcbor.go. Values larger than the bound are represented only by head-boundary containers (23…65536 entries). Also: the root package's Encode/Decode convenience functions against the codec called directly (same bytes, same value, same verdict on trailing and truncated input, earlier results unchanged by later calls)."),
  "C04": dict(
    category="model_checking", design_ref="DESIGN.md §5 C04",
    technique="bounded-exhaustive enumeration of in-domain values × all insertion orders × implementations; output checked by an independent DAG-JSON reader on the standard library tokenizer, by the real decoder, and for determinism",
    text="Every in-domain value of the bounded universe is encoded with dagjson; the text must be readable by an independent reader (encoding/json tokens) as exactly the value with keys in bytewise order, must decode through the library to the same value and kinds, must be identical for every insertion order and implementation, and re-encode identically.",
-   note="Trusted: encoding/json tokenizer, cid.Decode, base64. Known finding (integral floats emitted as integers, defect in the refmt dependency) is listed in known_findings.json."),
+   note="Trusted: encoding/json tokenizer, cid.Decode, base64. Known finding (integral floats emitted as integers, defect in the refmt dependency) is listed in known_findings.json. Also: values held by the reflection binding (written through the representation, decoded into the binding, written again); the root package's Encode/Decode convenience functions against dagjson called directly."),
  "C05": dict(
    category="model_checking", design_ref="DESIGN.md §5 C05",
    technique="enumeration of values × codecs × link prototypes × implementations against hand-assembled CIDs, plus explicit-state search over store/compute/load histories on the real LinkSystem (state = stored set + last operation, to fixpoint) and all operation sequences to depth 3/4",
    text="Store = ComputeLink = hand-assembled CID (sha2-256/512/identity by crypto/*; all 80+ registered hashers for self-consistency), independent of implementation and (DAG codecs) of insertion order; every load function returns the canonical value and raw bytes hashing to the link; every answer is the same in every explored history.",
-   note="Trusted: crypto/sha256, crypto/sha512, go-multihash for other hash functions. dag-json/json domain excludes integral floats (recorded under C04). Typed (bindnode) nodes of the schema families are stored and linked too (both views; struct-keyed maps through their representation view only)."),
+   note="Trusted: crypto/sha256, crypto/sha512, go-multihash for other hash functions. dag-json/json domain excludes integral floats (recorded under C04). Typed (bindnode) nodes of the schema families are stored and linked too (both views; struct-keyed maps through their representation view only). The universe includes the shapes DAG-JSON reserves and their near misses for every codec whose domain holds them (plain json included); histories also over cidlink.Memory."),
  "C06": dict(
    category="fault_enumeration", design_ref="DESIGN.md §5 C06", engine="fault",
    technique="exhaustive single-fault enumeration on the storage seam: every bit flip, truncation, extension, substitution, read error offset and chunking of every block × 4 load functions; every failing Write call, accessor failure, opener and commit error on Store",
@@ -34,12 +34,12 @@ CHECKS = {
    category="model_checking", design_ref="DESIGN.md §5 C07",
    technique="bounded-exhaustive enumeration of selector ASTs (≤3/4 clauses + targeted union/recursion families) × block graphs (≤4/5 nodes, every cut into blocks, dangling/shared links), each walked by the real WalkAdv/WalkMatching and compared with an independent substitution-style reference denotation",
    text="Every (selector, graph) pair in the bound is compiled by the real parser and walked over real blocks stored in a real link system; the visit sequence (path, node content, reason), the link-load sequence and the matching-only walk must equal the reference denotation written by substitution from the documented semantics.",
-   note="Trusted: reference denotation mc/trav/refwalk.go. Known finding: one depth counter per merged union (known_findings.json). ExploreInterpretAs/ADL reification and conditions other than stop-at-link are outside the alphabet. Stop-at-link conditions are enumerated with every link of the graph as the condition on recursions reaching their edge after 1–3 steps."),
+   note="Trusted: reference denotation mc/trav/refwalk.go. Known finding: one depth counter per merged union (known_findings.json). ExploreInterpretAs/ADL reification and conditions other than stop-at-link are outside the alphabet. Stop-at-link conditions are enumerated with every link of the graph as the condition on recursions reaching their edge after 1–3 steps. Also: graphs with raw-twin links (one multihash, two CIDs) under stop-at conditions; the package-level traversal.WalkAdv/WalkMatching on link-free graphs; the selector spec builder, JSON selector helpers and pre-parsed common selectors against the specification tree."),
  "C14": dict(
    category="model_checking", design_ref="DESIGN.md §5 C14",
    technique="exhaustive enumeration of graphs × every visit of every walk, every node position, every path ≤3 segments over a 10-segment alphabet, every segment string ≤3 bytes; Get/Focus/stepwise lookup on the real code vs a reference resolver",
    text="For every visit of every enumerated walk (and WalkLocal) the reported path, as reported and re-parsed, must resolve through Get, Focus and segment-by-segment lookup (loading links) to the visited node; every position's own path resolves in string, int and parsed form; every short path succeeds exactly when the reference resolver finds it; String/ParsePath round-trips every clean segment sequence.",
-   note="Trusted: reference resolver trav.Resolve. Non-canonical numerals on lists are unspecified (agreement only). Also: comb graphs to depth 6/18 whose visit paths are resolved after the walk; every program of Path operations to depth 4/5 (append-only 6/8) with every live path re-checked after every step; typed nodes (reflection binding, both views) as walk roots."),
+   note="Trusted: reference resolver trav.Resolve. Non-canonical numerals on lists are unspecified (agreement only). Also: comb graphs to depth 6/18 whose visit paths are resolved after the walk; every program of Path operations to depth 4/5 (append-only 6/8) with every live path re-checked after every step; typed nodes (reflection binding, both views) as walk roots. Also: escape-looking segments and keys (~0 ~1 %2F backslash . .. ? #); package-level traversal.Get/Focus on link-free graphs."),
  "C15": dict(
    category="model_checking", design_ref="DESIGN.md §5 C15",
    technique="exhaustive enumeration of every setting of each traversal control (node budget 0..|U|+1, link budget 0..|L|+1, start-at every visited path, visit-once, every skip set ≤2/3) for every (graph, selector) pair, compared with the prefix/suffix/subsequence of the unrestricted real walk",
@@ -49,7 +49,7 @@ CHECKS = {
    category="model_checking", design_ref="DESIGN.md §5 C16",
    technique="exhaustive enumeration of graphs × target paths ≤2/3 segments × replacements × createParents, selector-driven transforms for every selector ≤3 clauses × 3 transform functions, and all 2-step transform sequences, against a functional-update reference with hand-hashed re-linking",
    text="Every focused transform in the bound must equal the reference functional update (content, order, links recomputed by hand), leave the input node and blocks unchanged, call the callback once with the node at the target, fail exactly where the target is unreachable; walking transforms must replace exactly the matched nodes and re-link across links; chained transforms never disturb earlier results.",
-   note="Trusted: reference update in mc/props/c16, reference DAG-CBOR encoder + crypto/sha256 for new links. Root replacement is limited to what the root's prototype accepts; root removal and non-canonical indices are unspecified; a tree consisting of the null singleton alone is not a root (its prototype cannot build). Each compiled selector is used twice per case."),
+   note="Trusted: reference update in mc/props/c16, reference DAG-CBOR encoder + crypto/sha256 for new links. Root replacement is limited to what the root's prototype accepts; root removal and non-canonical indices are unspecified; a tree consisting of the null singleton alone is not a root (its prototype cannot build). Each compiled selector is used twice per case. Also: integer-form segments for canonical numerals on every focused path; maps whose keys are equal as numerals (1|01|+1|001)."),
  "C01": dict(
    category="model_checking", design_ref="DESIGN.md §5 C01",
    technique="bounded-exhaustive enumeration of values × builder programs by deviation bound (default route, every single and every pair of route deviations, Reset-reuse) executed on the real builders, read back by a complete observer; all-pairs DeepEqual/Copy agreement across implementations",
@@ -74,7 +74,7 @@ CHECKS = {
    category="fault_enumeration", design_ref="DESIGN.md §5 C18", engine="fault",
    technique="exhaustive crash-point and single/double fault enumeration over every filesystem call of 10–14 write histories on the real fsstore (process death before/after each call, torn writes, six errno answers), recovery by a new process, plus stateless exploration of all interleavings of 2–3 threads at filesystem-call granularity up to a preemption bound under a cooperative scheduler",
    text="For every history and every point the writer is killed or a call fails; a fresh store on the same directory must then find every key absent or complete, acknowledged writes present, no partial file outside the staging directory, and must accept new puts. Concurrent writer/writer, writer/reader and writer/Has harnesses are explored over every schedule within the preemption bound, with a raw-os observer evaluating the invariant after every step.",
-   note="Power loss (unsynced page cache) is not modelled. Scheduling points are the filesystem calls (the code has no other synchronisation); the same thread bodies also run free in a -race build with no controller between the store and the os package (happens-before detector, 20/200 repetitions per harness) with a final audit. Histories include the storage.Put/PutStream/PutVec helpers; the fault alphabet includes cancelling the writer's context before any one call. EEXIST from rename is injected only when the destination exists."),
+   note="Power loss (unsynced page cache) is not modelled. Scheduling points are the filesystem calls (the code has no other synchronisation); the same thread bodies also run free in a -race build with no controller between the store and the os package (happens-before detector, 20/200 repetitions per harness) with a final audit. Histories include the storage.Put/PutStream/PutVec helpers; the fault alphabet includes cancelling the writer's context before any one call. EEXIST from rename is injected only when the destination exists. Histories also go through LinkSystem.Store with the store as write storage, incl. an encode that fails midway before a good store."),
  "C08": dict(
    category="model_checking", design_ref="DESIGN.md §3, §5 C08",
    technique="bounded-exhaustive enumeration of schema families (every representation strategy × optional/nullable mode vectors × renames; thorough: every outer×inner strategy pair) × typed value spaces × four construction routes × engines (bindnode with inferred Go types; code generated afresh by the working tree's generator and compiled into the check), both views read completely and compared with reference schema semantics",
@@ -84,22 +84,22 @@ CHECKS = {
    category="model_checking", design_ref="DESIGN.md §5 C09",
    technique="exhaustive single-mutation closure: every conforming tree of every typed value at both levels and every local mutation of it at every position, fed through three routes (entry, key/value, relaxed dag-cbor so duplicate keys reach the assembler) into both engines; verdicts compared with reference acceptance relations",
    text="accepted ⇔ the reference accepts; every rejection is an error from an assembler call or finish (never a panic, never a silently built violating node); an accepted input reads back as the reference's typed value.",
-   note="Trusted: mc/rs AcceptType/AcceptRepr. Inputs differing from a conforming tree by more than one local mutation are not enumerated. Recorded defects: known_findings.json."),
+   note="Trusted: mc/rs AcceptType/AcceptRepr. Inputs differing from a conforming tree by more than one local mutation are not enumerated. Recorded defects: known_findings.json. Inputs are also fed as DAG-JSON text (reported under the decoder route) wherever the text format can carry them."),
  "C13": dict(
    category="model_checking", design_ref="DESIGN.md §5 C13",
    technique="programs: schema families generated by gengo.Generate from the working tree and compiled (failure = violation); inputs: the C09 mutation closure; lock-step differential execution of bindnode and generated code",
    text="Every family in the generator's feature set must generate and compile; on every input of the C09 space bindnode and the generated code must agree on accept/reject, on both views and on the dag-cbor bytes, and neither may panic.",
-   note="Pure differential oracle (shared mistakes are C08/C09's business). Enum, Any and listpairs are outside the generator's feature set."),
+   note="Pure differential oracle (shared mistakes are C08/C09's business). Enum, Any and listpairs are outside the generator's feature set. Inputs are also fed as DAG-JSON text wherever the format can carry them; an inconsistency among one engine's own reads that the other engine does not show is reported too."),
  "C19": dict(
    category="model_checking", design_ref="DESIGN.md §5 C19",
    technique="enumeration of a declared Go-type vocabulary × boundary values (wrap view, build+unwrap, marshal/unmarshal ×2 codecs, every out-of-width integer) plus exhaustive enumeration of binding-call histories (depth 2/3 over 15 calls), each history executed in its own subprocess and compared call-by-call with first-call results",
    text="For every declared Go type and boundary value the wrapped node must read as an independently written view of the Go value, rebuilding and unwrapping must reproduce it, and codec round trips into a fresh value must reproduce it; every integer that does not fit its Go field must be an error; every history of Wrap/Prototype/Marshal/Unmarshal calls with explicit, inferred and Go-only arguments must succeed with the results the same call gives in a fresh process.",
-   note="Views are hand-written per Go type (no reflection shared with bindnode). dag-json skips values with integral floats (C04 finding). Inference histories use struct/list/scalar types only (what inferSchema supports)."),
+   note="Views are hand-written per Go type (no reflection shared with bindnode). dag-json skips values with integral floats (C04 finding). Inference histories use struct/list/scalar types only (what inferSchema supports). Every vocabulary value is also assigned, as the wrapped node, to a fresh builder of the same types at both levels and unwrapped."),
  "C20": dict(
    category="model_checking", design_ref="DESIGN.md §5 C20", engine="sched",
    technique="stateless exploration of all interleavings (preemption bound 2/3) of every unordered pair of 33 operations on shared objects under a cooperative scheduler, with scheduling points inserted by overlay rewriting at every accessor of shared mutable state and at every sync operation (sync shim with modelled lock waits); plus exhaustive write-footprint analysis of each operation (deep fingerprints of shared objects and package-level state), a footprint sweep over every selector of ≤5/6 clauses used for walks and transforms, a footprint sweep over every family root type × values (reflection binding) and generic nodes read nine ways, and a separate free-running -race pass over all pairs",
    text="(a) every schedule within the bound of every operation pair: each goroutine's result equals its result alone, no panic, no deadlock; (b) no operation on shared objects, run alone, changes any shared object or package-level mutable state unless it synchronises; (c) the race detector reports nothing on any pair with 2 and 8 goroutines.",
-   note="Interleavings are explored at hook granularity (accessors of TypeSystem, Registry, Config/Progress init, lazy store initialisers, inferSchema, sync operations), not at every memory access; (b) sees persistent writes only; (c) is a free-running happens-before detector, used as the brief prescribes for unsynchronised accesses. Memory-model effects are not modelled. Known finding: reader-backed bytes nodes."),
+   note="Interleavings are explored at hook granularity (accessors of TypeSystem, Registry, Config/Progress init, lazy store initialisers, inferSchema, sync operations), not at every memory access; (b) sees persistent writes only; (c) is a free-running happens-before detector, used as the brief prescribes for unsynchronised accesses. Memory-model effects are not modelled. Known finding: reader-backed bytes nodes. The shared read-only store also holds a block that fails its hash check; raw loads of intact blocks beside and after a mismatching load are operations of the alphabet."),
  "C10": dict(
    category="model_checking", design_ref="DESIGN.md §5 C10",
    technique="exhaustive enumeration of short inputs over structural alphabets for every decoder under a lattice of configurations (depth limit × allocation budget × strict/relaxed × prealloc cap × links × stream mode × target prototype), depth bombs through a depth-observing assembler proxy, systematic hostile claimed lengths in an address-space-limited single-goroutine worker with allocation accounting, exhaustive small selector-spec trees compiled and walked, and every short path string",
